@@ -57,6 +57,7 @@ class Sim:
         self.cb_enabled = False      # callbacks are events only while an op runs library code
         self.cb_in_op = 0            # callbacks seen in the current op
         self.cb_total = 0
+        self.faultable_total = 0
         self.fault_at: Optional[int] = None   # raise SimFault at this callback index of the current op
         self.fault_kinds = None      # optional set restricting which callback kinds may fault
         self.faultable_in_op = 0     # callbacks of faultable kinds seen in the current op
@@ -108,6 +109,7 @@ class Sim:
         if self.fault_kinds is not None and kind not in self.fault_kinds:
             return
         self.faultable_in_op += 1
+        self.faultable_total += 1
         if self.fault_at is not None and self.faultable_in_op == self.fault_at:
             self.counters["fault_fired:" + kind] += 1
             self.counters["fault_fired"] += 1
